@@ -16,7 +16,7 @@ def gen(rng, tier):
     n = 240 if tier == 'quick' else 5000
     cases = []
     for _ in range(n):
-        o = progs.Opts(control=True, cut=rng.random() < 0.5, opaque_cut=rng.random() < 0.2, builtins=False, deep=rng.random() < 0.3)
+        o = progs.Opts(open_leaves=0.5 if rng.random() < 0.2 else 0.0, control=True, cut=rng.random() < 0.5, opaque_cut=rng.random() < 0.2, builtins=False, deep=rng.random() < 0.3)
         p = progs.gen_program(rng, o)
         cases.append({'clauses': p['clauses'], 'queries': p['queries']})
     return cases
